@@ -29,8 +29,9 @@ SMALL = [None, True, 1, 1.0, '1', 'a', A.Color.RED, A.Shade.RED]
 TINY = [None, 1, '1', A.Color.RED]
 
 TYPES = {'Foo': A.Foo, 'FooBar': A.FooBar, 'Foo_': A.Foo_, 'BFoo': B.Foo, 'JFoo': A.JFoo, 'P2': A.P2,
-         'Leaf': A.Leaf, 'BLeaf': B.Leaf, 'NoCacheT': A.NoCacheT, 'PFoo': A.PFoo}
-OUTER = ('Foo', 'BFoo', 'FooBar', 'Foo_', 'JFoo', 'P2', 'PFoo')
+         'Leaf': A.Leaf, 'BLeaf': B.Leaf, 'NoCacheT': A.NoCacheT, 'PFoo': A.PFoo,
+         'Modèle': getattr(A, 'Modèle'), 'Эксперимент': getattr(A, 'Эксперимент')}
+OUTER = ('Foo', 'BFoo', 'FooBar', 'Foo_', 'JFoo', 'P2', 'PFoo', 'Modèle', 'Эксперимент')
 
 
 def lookalikes():
@@ -74,6 +75,12 @@ def space(tier: str):
     for _, la, real in lookalikes():
         out.append(('Foo', la, None))
         out.append(('Foo', real, None))
+    # dict parameters whose keys are not in alphabetical order (top level, in a list, in a nested task)
+    zd = ('d', (('zeta', ('s', 1)), ('alpha', ('s', 2)), ('mid', ('d', (('y', ('s', None)), ('b', ('s', 'a')))))))
+    for tn in ('Foo', 'JFoo', 'PFoo'):
+        out.append((tn, zd, None))
+        out.append((tn, ('l', (zd, ('s', 1))), None))
+        out.append((tn, ('t', 'Leaf', zd), None))
     return out
 
 
@@ -106,6 +113,11 @@ def _chunk(args):
     silence_labtech()
     from labtech.storage import LocalStorage
     from labtech.serialization import Serializer
+    from labtech.cache import NullCache
+    from labtech.types import TaskResult
+    from ..sched_runner import MemStorage
+    from ..spec import FIXED_META
+    mem = MemStorage()
     items = space(tier)
     ser = Serializer()
     tmp = tempfile.mkdtemp(prefix='c07_')
@@ -131,7 +143,8 @@ def _chunk(args):
             t3 = make(it, spelling=1)
             if t3.cache_key != t.cache_key:
                 bad('tuple/frozendict-spelling', t3.cache_key)
-            for proto in (2, pickle.HIGHEST_PROTOCOL):
+            # (pickle protocols < 3 cannot name a non-ASCII global - a limit of pickle, not of labtech)
+            for proto in ((2, pickle.HIGHEST_PROTOCOL) if it[0].isascii() else (4, pickle.HIGHEST_PROTOCOL)):
                 t4 = pickle.loads(pickle.dumps(t, protocol=proto))
                 if t4.cache_key != t.cache_key:
                     bad(f'pickle-{proto}', t4.cache_key)
@@ -141,6 +154,17 @@ def _chunk(args):
                     bad('reconstruct-from-metadata', t5.cache_key)
             except BaseException as e:  # noqa
                 bad('reconstruct-from-metadata', f'{type(e).__name__}: {e}')
+            # reconstruction from what a real save() stores: metadata written through the cache of the
+            # type, read back by load_task (the path cached_tasks uses)
+            if not isinstance(t._lt.cache, NullCache):
+                try:
+                    t._lt.cache.save(mem, t, TaskResult(value=None, meta=FIXED_META))
+                    t6 = t._lt.cache.load_task(mem, type(t), t.cache_key)
+                    if t6.cache_key != t.cache_key:
+                        bad('reconstruct-from-stored-metadata', t6.cache_key)
+                    mem.d.clear()
+                except BaseException as e:  # noqa
+                    bad('reconstruct-from-stored-metadata', f'{type(e).__name__}: {e}')
             try:
                 storage.exists(t.cache_key)
             except BaseException as e:  # noqa
@@ -149,6 +173,71 @@ def _chunk(args):
     finally:
         shutil.rmtree(tmp, ignore_errors=True)
     return lo, keys, forms, viols
+
+
+MAIN_SCRIPT = r"""
+import json, multiprocessing, pickle, sys
+import labtech
+
+
+@labtech.task
+class Inner:
+    v: int
+
+    def run(self):
+        return self.v
+
+
+@labtech.task
+class Outer:
+    p: object
+    q: object = None
+
+    def run(self):
+        return None
+
+
+def child(blob, q):
+    t = pickle.loads(blob)
+    q.put([t.cache_key, [d.cache_key for d in labtech.tasks.get_direct_dependencies(t)]])
+
+
+def build():
+    return [Outer(p=1), Outer(p=Inner(v=1)), Outer(p=[Inner(v=1), {'k': Inner(v=2)}], q='x'), Inner(v=3)]
+
+
+if __name__ == '__main__':
+    out = []
+    for method in ('fork', 'spawn'):
+        ctx = multiprocessing.get_context(method)
+        for t in build():
+            q = ctx.Queue()
+            pr = ctx.Process(target=child, args=(pickle.dumps(t), q))
+            pr.start()
+            got = q.get(timeout=120)
+            pr.join()
+            out.append([method, repr(t), t.cache_key, [d.cache_key for d in labtech.tasks.get_direct_dependencies(t)], got])
+    print(json.dumps(out))
+"""
+
+
+def main_script_slice(tmp):
+    """Task types defined in the script being run (module __main__): a copy that crosses into a
+    forked / spawned worker (where the script is imported as __mp_main__) keeps its key."""
+    path = os.path.join(tmp, 'c07_main_script.py')
+    with open(path, 'w') as f:
+        f.write(MAIN_SCRIPT)
+    p = subprocess.run([sys.executable, path], capture_output=True, text=True, timeout=600, cwd=tmp)
+    if p.returncode != 0:
+        raise HarnessError(f'main-script slice failed: {p.stderr[-1500:]}')
+    rows = json.loads(p.stdout.strip().splitlines()[-1])
+    viols = []
+    for method, rep, key, depkeys, got in rows:
+        if got[0] != key or got[1] != depkeys:
+            viols.append(Violation('C07', f'nondeterministic:main-script-task-in-{method}-worker',
+                                   f'{rep} (type defined in the main script): key {key} / dependency keys {depkeys} in the caller, {got} after '
+                                   f'unpickling in a {method} worker', {'tier': 'quick', 'aspect': 'main-script', 'method': method}, size=3))
+    return len(rows), viols
 
 
 def _sweep(rng):
@@ -199,6 +288,9 @@ def run(tier: str, seed: int) -> Result:
                                            {'tier': tier, 'a': seen_sweep[k], 'b': lo + off}, size=5))
                     break
                 seen_sweep[k] = lo + off
+        n_ms, vs = main_script_slice(tmp)
+        evals += n_ms
+        viols.extend(vs)
         # fresh interpreters with other hash seeds
         seeds = (1,) if tier == 'quick' else (1, 2, 3)
         procs = []
@@ -228,7 +320,7 @@ def run(tier: str, seed: int) -> Result:
         'distinct_nontrivial': distinct_forms,
         'rule': ('every parameter tree (scalars incl. edge floats/strings, 4 enum classes, list/dict nesting, nested tasks from two '
                  f'modules) up to the tier bound x 7 outer task types; tier={tier}; distinct_nontrivial = distinct typed canonical forms; '
-                 'each item: rebuild, alt spelling, pickle x2, serialize->deserialize, LocalStorage.exists, fresh interpreters; plus an integer sweep Foo(p=0..N) for key entropy'),
+                 'each item: rebuild, alt spelling, pickle x2, serialize->deserialize, real save -> load_task, LocalStorage.exists, fresh interpreters; task types defined in a main script pickled into fork and spawn workers; plus an integer sweep Foo(p=0..N) for key entropy'),
         'samples': [item_desc(items[i]) + ' -> ' + keys0[i] for i in (0, len(items) // 3, len(items) // 2, len(items) - 1)],
         'distinct_keys': len(by_key),
         'fresh_interpreter_seeds': list(seeds),
